@@ -422,6 +422,19 @@ theorem outcome_connNegErrs {s : St}  (h : Outcome s) (he : enabled s .connNegEr
   obtain ⟨a1, a2, a3, a4, a5, a6, a7, a8, a9, a10, a11⟩ := h
   outcome_case
 
+theorem hist_connNegClosed {s : St}  (h : Hist s) (he : enabled s .connNegClosed = true) : Hist (eff s .connNegClosed) := by
+  obtain ⟨a1⟩ := h
+  hist_case
+theorem wire_connNegClosed {s : St}  (hl : Life s) (h : Wire s) (he : enabled s .connNegClosed = true) : Wire (eff s .connNegClosed) := by
+  obtain ⟨a1, a2⟩ := h
+  have l1 := hl.wOrigin
+  have l2 := hl.wrOrigin
+  wire_case
+theorem outcome_connNegClosed {s : St}  (h : Outcome s) (he : enabled s .connNegClosed = true) : Outcome (eff s .connNegClosed) := by
+  obtain ⟨a1, a2, a3, a4, a5, a6, a7, a8, a9, a10, a11⟩ := h
+  simp [enabled] at he
+  outcome_case
+
 theorem hist_connReady {s : St}  (h : Hist s) (he : enabled s .connReady = true) : Hist (eff s .connReady) := by
   obtain ⟨a1⟩ := h
   hist_case
@@ -515,6 +528,7 @@ theorem hist_step {s : St} {a : Act} (h : Hist s) (he : enabled s a = true) : Hi
   | connNegSend c t p => exact hist_connNegSend c t p h he
   | connNegDone n => exact hist_connNegDone n h he
   | connNegErrs  => exact hist_connNegErrs  h he
+  | connNegClosed  => exact hist_connNegClosed  h he
   | connReady  => exact hist_connReady  h he
   | connServeErr  => exact hist_connServeErr  h he
   | connServeDone  => exact hist_connServeDone  h he
@@ -554,6 +568,7 @@ theorem wire_step {s : St} {a : Act} (hl : Life s) (h : Wire s) (he : enabled s 
   | connNegSend c t p => exact wire_connNegSend c t p hl h he
   | connNegDone n => exact wire_connNegDone n hl h he
   | connNegErrs  => exact wire_connNegErrs  hl h he
+  | connNegClosed  => exact wire_connNegClosed  hl h he
   | connReady  => exact wire_connReady  hl h he
   | connServeErr  => exact wire_connServeErr  hl h he
   | connServeDone  => exact wire_connServeDone  hl h he
@@ -593,6 +608,7 @@ theorem outcome_step {s : St} {a : Act} (h : Outcome s) (he : enabled s a = true
   | connNegSend c t p => exact outcome_connNegSend c t p h he
   | connNegDone n => exact outcome_connNegDone n h he
   | connNegErrs  => exact outcome_connNegErrs  h he
+  | connNegClosed  => exact outcome_connNegClosed  h he
   | connReady  => exact outcome_connReady  h he
   | connServeErr  => exact outcome_connServeErr  h he
   | connServeDone  => exact outcome_connServeDone  h he
